@@ -220,6 +220,9 @@ def run(ctx):
         if callee_short(s) == "get_type":
             nm = "nested-get_type#%d" % member_sinks.index(s)
             _check_gate(ctx, "R04.2", fd, s, nm, "vis", vis_min, [G.pred_true("in_forcetype")], " (or in_forcetype)")
+        elif callee_short(s) == "scan_element":
+            # define_method consults the ignoremember list itself (checked above); a data member is filtered here
+            _check_gate(ctx, "R04.2", fd, s, "scan_element#%d" % member_sinks.index(s), "in_ignoremember", G.pred_false("in_ignoremember"))
         elif callee_short(s) in ("get_make_property", "get_make_seq"):
             # define_method and scan_element apply the visibility test themselves (R04.1/R04.2); these two do not
             _check_gate(ctx, "R04.2", fd, s, "%s#%d" % (callee_short(s), member_sinks.index(s)), "vis", vis_min)
